@@ -52,13 +52,13 @@ def rand_ssc(rng):
                     props.append([key, state_value(rng, key)])
     for key in ("ARTIST", "ATTACKS", "BGCHANGES", "MYKEY"):
         if rng.random() < 0.3:
-            props.append([key, G.rand_value(rng)])
+            props.append([key, None if rng.random() < 0.15 else G.rand_value(rng)])
     if rng.random() < 0.5:
         rng.shuffle(props)
     charts = []
     for _ in range(rng.choice([0, 1, 1, 2, 3])):
         pad = (lambda v: rng.choice([" ", "\n", ""]) + v + rng.choice([" ", " \n", "\t"])) if rng.random() < 0.25 else (lambda v: v)      # an SSC chart keeps blanks around a value
-        ch = [[k, pad(G.stripped(rng))] for k in SIX[:5]] + [["NOTES", rng.choice(["0000\n0000", "1000", "\n0000\n0000\n"])]]
+        ch = [[k, None if rng.random() < 0.06 else pad(G.stripped(rng))] for k in SIX[:5]] + [["NOTES", rng.choice(["0000\n0000", "1000", "\n0000\n0000\n"])]]      # None: a key-only field (#DESCRIPTION;)
         for pt, keys in CH_INVALID.items():
             for key in keys:
                 if rng.random() < 0.18:
@@ -207,6 +207,17 @@ def impl(c):
         want = [list(getattr(x, "extradata", None) or []) for x in (ts.charts if ts is not None and len(ts) else [])]
         want += [list(getattr(tc, "extradata", None) or []) if tc is not None else [] for _ in ssc.charts]
         o["extras_ok"] = [list(getattr(x, "extradata", None) or []) for x in out.charts] == want
+        # every view of the result agrees: subscripts, get, attributes and items of the simfile and of each chart
+        views = True
+        try:
+            from collections import OrderedDict
+            for obj in [out] + list(out.charts):
+                for k, v in OrderedDict.items(obj):
+                    if obj[k] != v or obj.get(k, "missing") != v or (k in obj) is not True or dict(obj)[k] != v:
+                        views = ["key %s of %s" % (k, type(obj).__name__), "items say %r" % (v,)]
+        except Exception as e:
+            views = ["reading the result raised %s(%s)" % (type(e).__name__, e)]
+        o["views_ok"] = views
         shared = any(x is y for x in out.charts for y in (ts.charts if ts is not None else [])) or any(x is tc for x in out.charts)
         out["TITLE"] = "mutated"
         for x in out.charts:
@@ -239,6 +250,7 @@ def model(c, ans):
     if r[0] == "ok":
         o["no_sharing"] = True
         o["extras_ok"] = True
+        o["views_ok"] = True
     return o
 
 
@@ -323,6 +335,8 @@ def oracle(c, o):
         for a, b in zip(sc, out_charts):
             if [x.strip() if i < 6 else x for i, x in enumerate(a[:6])] != [v for k, v in b]:
                 return "round trip changed a chart"
+    if o.get("res", [""])[0] == "ok" and o.get("views_ok") is not True:
+        return "the result holds a property that not every view shows: %s" % (o.get("views_ok"),)
     if o.get("res", [""])[0] == "ok" and o.get("extras_ok") is not True:
         return "the converted charts do not carry the extra components of the templates they were copied from"
     if o.get("unmodified") is not True or o.get("no_sharing") is not True:
